@@ -119,11 +119,7 @@ func (c *Conversation) processDataMessageWithRawErrors(header, msg []byte) (plai
 		return
 	}
 
-	if err = c.keys.checkMessageCounter(dataMessage); err != nil {
-		return
-	}
-
-	sessionKeys, err := c.keys.calculateDHSessionKeys(dataMessage.recipientKeyID, dataMessage.senderKeyID, c.version)
+	sessionKeys, err := c.keys.deriveDHSessionKeys(dataMessage.recipientKeyID, dataMessage.senderKeyID, c.version)
 	if err != nil {
 		return
 	}
@@ -131,6 +127,13 @@ func (c *Conversation) processDataMessageWithRawErrors(header, msg []byte) (plai
 	if err = dataMessage.checkSign(sessionKeys.receivingMACKey, header, c.version); err != nil {
 		return
 	}
+
+	// only an authenticated message may advance the counter or record a MAC key as used
+	if err = c.keys.checkMessageCounter(dataMessage); err != nil {
+		return
+	}
+
+	c.keys.macKeyHistory.addKeys(dataMessage.recipientKeyID, dataMessage.senderKeyID, sessionKeys.receivingMACKey)
 
 	p := plainDataMsg{}
 	//this can't return an error since receivingAESKey is a AES-128 key
